@@ -99,6 +99,9 @@ func genPath(t *rapid.T) string {
 	for i := range segs {
 		segs[i] = segGen.Draw(t, "seg")
 	}
+	if rapid.IntRange(0, 7).Draw(t, "ollafirst") == 0 {
+		segs[0] = "olla" // a remaining path that itself looks like an Olla route
+	}
 	p := strings.Join(segs, "/")
 	if rapid.IntRange(0, 4).Draw(t, "trailingslash") == 0 {
 		p += "/" // a trailing slash is part of the path
